@@ -298,50 +298,11 @@ def run(ctx, rep):
         rep.check(okc, 'R-C05-6', 'repair: blockcmp of a CHG block against its inherited hash', bc.loc(),
                   'mismatch marks the entry out of date' if okc else 'on a mismatch the recovered data is accepted as the up-to-date version (written back and reported fixed), although the inherited hash may have been computed over a different block length',
                   function='repair', construct='blockcmp on CHG: mismatch accepted as up to date')
-    # the special hash values (INVALID = lost, ZERO = was empty) can never validate recovered data: they are tested before any comparison
-    rep.rule('R-C05-6i', 'repair: a recovered CHG block is compared with its past hash only after the INVALID and ZERO markers were excluded, and a lost (INVALID) hash marks the entry out of date', 2)
-    nchg = 0
-    for bc in rp_.calls('blockcmp'):
-        gs = guards_of(rp_, bc)
-        chg = state_is(guards_of(rp_, bc, expand=True), st['CHG'])
-        if not chg:
-            continue
-        nchg += 1
-        inv = [(a, p) for a, p in gs if a.startswith('hash_is_invalid(')]
-        zer = [(a, p) for a, p in gs if a.startswith('hash_is_zero(')]
-        ok = bool(inv) and all(not p for a, p in inv) and bool(zer) and all(not p for a, p in zer)
-        rep.check(ok, 'R-C05-6i', 'repair: blockcmp of a CHG block is reached only with a real past hash', bc.loc(), 'guards: %s' % [(a.split('(')[0], p) for a, p in gs if 'hash_is' in a or 'block_has' in a],
-                  function='repair', construct='CHG compare without invalid/zero test')
-    if nchg == 0:
-        raise AnalysisBroken('repair: comparison of a CHG block with its past hash not found')
-    # hash_is_invalid / hash_is_zero answer 0 for every hash when the array uses a reduced hash size (the markers cannot be told from
-    # real hashes): a "not a marker" answer is then no evidence.  The comparison that accepts recovered data must therefore also be
-    # conditioned on the full hash size -- otherwise, with hashsize < 16, the marker bytes are compared as if they were a hash, differ
-    # from the hash of whatever the parity gave, and that data is accepted as the up-to-date content (F29)
-    rep.rule('R-C05-6r', 'repair: the past-hash comparison of a recovered CHG block is reached only with the full hash size (the INVALID / ZERO tests are blind for reduced sizes)', 1)
-    for bc in rp_.calls('blockcmp'):
-        gx = guards_of(rp_, bc, expand=True)
-        if not state_is(gx, st['CHG']):
-            continue
-        full = [(a, p) for a, p in gx if 'BLOCK_HASH_SIZE' in a or 'block_hash_size' in a]
-        okf = any((('!=16' in a.replace(' ', '') and p is False) or ('==16' in a.replace(' ', '') and p is True)) for a, p in full)
-        rep.check(okf, 'R-C05-6r', 'repair: blockcmp of a CHG block requires BLOCK_HASH_SIZE == HASH_MAX', bc.loc(),
-                  'guard on the hash size: %s' % full if okf else 'with a reduced hash size hash_is_invalid() and hash_is_zero() always answer 0: the marker of a never-synced (ZERO) or lost (INVALID) hash is compared like a real hash, never matches, and the rebuilt block -- zeros, or the data of the previous occupant -- is written and reported recovered',
-                  function='repair', construct='marker tests blind for reduced hash')
-    ood_ = [i for i in rp_.all_insts() if i.op == 'store' and rp_.expr(i.ops[1]).endswith('.is_outofdate') and rp_.const_of(i.ops[0]) == 1]
-    # on the side of the test where the hash IS invalid every path to the next entry passes an out-of-date store (the test may be
-    # one disjunct of a larger condition)
-    ok = False
-    for hc_ in rp_.calls('hash_is_invalid'):
-        for br_, ci_ in C04.cond_branches_on_call(rp_, hc_):
-            yes = br_.ops[2][1] if (ci_.op != 'icmp' or ci_.pred == 'ne') else br_.ops[1][1]
-            lp_ = rp_.loop_of(hc_.block)
-            if lp_ is None:
-                continue
-            r_ = rp_.reach([rp_.blocks[yes][0]], stop={x.id for x in ood_}, include_start=True)
-            if rp_.blocks[lp_][0].id not in r_ and not any(x.id in r_ for x in rp_.returns()):
-                ok = True
-    rep.check(ok, 'R-C05-6i', 'repair: a CHG block whose past hash was lost is marked out of date (never written back as verified)', rp_.file, '%d out-of-date stores' % len(ood_), function='repair', construct='lost hash out of date')
+    # the special hash values (INVALID = lost, ZERO = was empty) can never validate recovered data, whatever the hash size: decided by
+    # interpreting the judgement of repair() (the former guard-name rules R-C05-6i / R-C05-6r asked for calls of hash_is_invalid /
+    # hash_is_zero and for a test of the hash size: a spelling, not the behaviour)
+    chg_decision_rules(P, rep, rid_safe='R-C05-6r')
+    blockcmp_size_rule(P, rep, 'R-C05-14')
     sy = P.fn('state_sync_process')
     hc2 = [c for c in C04.hash_compares(sy) if 'failed[' not in ' '.join(sy.expr(o) for o in c.ops)]
     okc = False
@@ -493,6 +454,131 @@ def buffer_slot_rule(P, rep, rid):
                       function=fn, construct='buffer index')
     if n < 2:
         raise AnalysisBroken('repair: buffer[] accesses not recognised (%d)' % n)
+
+
+def chg_decision_table(P):
+    """finite-domain interpretation (E10) of the part of repair() that judges a rebuilt CHG block: the loop over failed[] is run for one
+    entry with the hash size, the bytes of the past hash, "the rebuilt block is all zeros" and the verdict of blockcmp() as inputs.
+    Returns {(size, kind, zeros, differs): (is_outofdate, blockcmp_called)}; kinds: INVALID (all 00), ZERO (all FF), REAL."""
+    from .. import region as RG
+    from .C06 import blk_value
+    f = P.fn('repair')
+    st = blk_value(P)
+    bcs = [c for c in f.calls('blockcmp')]
+    lps = {f.loop_of(c.block) for c in bcs if f.loop_of(c.block) is not None}
+    # the loop over the failed entries that holds the CHG judgement: the one whose body tests the block state
+    cand = [h for h in lps if any(i.op == 'call' and i.callee == 'block_state_get' and i.block in f.loops[h] for i in f.all_insts())]
+    if len(cand) != 1:
+        raise AnalysisBroken('repair: the loop that judges the rebuilt CHG blocks was not found (%d candidates)' % len(cand))
+    h = cand[0]
+    fs = P.distructs.get('failed_struct'); bl = P.distructs.get('snapraid_block')
+    if not fs or not bl:
+        raise AnalysisBroken('layouts of failed_struct / snapraid_block not found')
+    fo = {m['name']: m['off'] for m in fs['members']}; bo = {m['name']: m['off'] for m in bl['members']}
+    for k in ('is_bad', 'is_outofdate', 'block', 'index', 'file', 'file_pos'):
+        if k not in fo:
+            raise AnalysisBroken('failed_struct.%s not found' % k)
+    table = {}
+    for size in (16, 8, 2):
+        for kind in ('INVALID', 'ZERO', 'REAL'):
+            for zeros in (0, 1):
+                for differs in (0, 1):
+                    called = [0]
+                    def ext(ins, args):
+                        c = ins.callee
+                        if c == 'blockcmp':
+                            called[0] += 1
+                            return (1 if differs else 0,)
+                        if c == 'memcmp':
+                            return (0 if zeros else 1,)
+                        if c in ('log_tag', 'log_fatal', 'log_error', 'msg_progress'):
+                            return (0,)
+                        if c in ('file_block_size', 'llvm.objectsize.i64.p0i8'):
+                            return (1024,)
+                        if c in ('__assert_fail',):
+                            raise AnalysisBroken('repair: the CHG judgement asserts on a CHG block')
+                        return None
+                    R = RG.Region(P, extern=ext)
+                    R.discover = []
+                    fp = RG.P_(('obj', 'failed'), 0); bp = RG.P_(('obj', 'blk'), 0); sp = RG.P_(('obj', 'state'), 0)
+                    R.zero_regions.add(sp.reg); R.zero_regions.add(('obj', 'file'))
+                    R.mem[(fp.reg, fo['is_bad'])] = 1; R.mem[(fp.reg, fo['is_outofdate'])] = 0; R.mem[(fp.reg, fo['index'])] = 0
+                    R.mem[(fp.reg, fo['block'])] = bp; R.mem[(fp.reg, fo['file'])] = RG.P_(('obj', 'file'), 0); R.mem[(fp.reg, fo['file_pos'])] = 0
+                    R.mem[(bp.reg, bo['state'])] = st['CHG']
+                    byte = {'INVALID': 0x00, 'ZERO': 0xFF}.get(kind)
+                    for k_ in range(16):
+                        R.mem[(bp.reg, bo['hash'] + k_)] = byte if byte is not None else (0x11 + 7 * k_) & 0xff
+                    R.mem[(('glob', 'BLOCK_HASH_SIZE'), 0)] = size
+                    R.set_local(f, 'failed', fp); R.set_local(f, 'failed_count', 1); R.set_local(f, 'state', sp); R.set_local(f, 'rehash', 0)
+                    R.set_local(f, 'buffer', R.array('buffer', [RG.P_(('obj', 'buf0'), 0)], 8)); R.set_local(f, 'buffer_zero', RG.P_(('obj', 'zero'), 0))
+                    jj = [i for i in f.all_insts() if i.op == 'alloca' and (i.var or '') == 'j']
+                    if len(jj) != 1:
+                        raise AnalysisBroken('repair: loop counter not identified')
+                    R.mem[(R.local_by_id(f, jj[0].id).reg, 0)] = 0
+                    body = f.loops[h]
+                    try:
+                        R.run(f, h, stop=lambda ins: f.insts.get(ins.id) is ins and ins.block not in body and ins.block != h)
+                    except RG.Stop:
+                        pass
+                    except RG.Unsupported as e:
+                        raise AnalysisBroken('cannot interpret the CHG judgement of repair: %s' % e)
+                    table[(size, kind, zeros, differs)] = (R.mem.get((fp.reg, fo['is_outofdate'])), called[0])
+    return table
+
+
+def chg_decision_rules(P, rep, rid_safe=None, rid_size=None):
+    """(safety, C05) a marker never validates rebuilt data: a lost past hash (INVALID) always gives out-of-date, the ZERO marker gives
+    out-of-date when the rebuilt block is all zeros, neither is handed to blockcmp -- for EVERY hash size (the library predicates
+    hash_is_invalid / hash_is_zero answer 0 for reduced sizes); a real past hash gives out-of-date exactly when it matches, or always.
+    (size independence, C16) the judgement does not depend on the hash size: an array written with hashsize 8 by the reference
+    version is repaired like one with hashsize 16."""
+    f = P.fn('repair')
+    rep.analysed(f)
+    t = chg_decision_table(P)
+    if rid_safe:
+        rep.rule(rid_safe, 'repair, judgement of a rebuilt CHG block interpreted for hash sizes 16 / 8 / 2: INVALID -> out of date; ZERO -> out of date when the rebuilt block is zero; markers never reach blockcmp; a real past hash -> out of date iff it matches (or always)', 30)
+        for (size, kind, zeros, differs), (ood, called) in sorted(t.items()):
+            if kind == 'INVALID':
+                ok = ood == 1 and not called
+                why = 'a lost past hash (all 00) must give out-of-date without any comparison'
+            elif kind == 'ZERO':
+                ok = not called and (ood == 1 or not zeros)
+                why = 'the ZERO marker (all FF) is not a hash: no comparison, and a rebuilt block of zeros is possibly the old content'
+            else:
+                ok = (ood == (1 if not differs else 0)) if called else ood == 1
+                why = 'a real past hash that matches the rebuilt block means possibly old data'
+            rep.check(ok, rid_safe, 'hashsize %d, past hash %s, rebuilt block %s, blockcmp %s' % (size, kind, 'zero' if zeros else 'not zero', 'differs' if differs else 'matches'), f.file,
+                      'out-of-date=%s, compared=%s' % (ood, bool(called)) if ok else 'out-of-date=%s, compared=%s: %s -- with this hash size the rebuilt bytes (zeros, or the previous occupant of the position) are written back and reported recovered' % (ood, bool(called), why),
+                      function='repair', construct='marker tests blind for reduced hash' if size != 16 else 'CHG judgement')
+    if rid_size:
+        rep.rule(rid_size, 'repair: the judgement of a rebuilt CHG block is the same for every hash size (reduced hash arrays are repaired like full hash ones)', 24)
+        for (size, kind, zeros, differs), (ood, called) in sorted(t.items()):
+            if size == 16:
+                continue
+            ref = t[(16, kind, zeros, differs)]
+            ok = ood == ref[0]
+            rep.check(ok, rid_size, 'hashsize %d vs 16: past hash %s, rebuilt block %s, blockcmp %s' % (size, kind, 'zero' if zeros else 'not zero', 'differs' if differs else 'matches'), f.file,
+                      'same judgement' if ok else 'out-of-date=%s (compared=%s) with hashsize %d, %s (compared=%s) with 16: a block that was correctly rebuilt from a fully updated parity is declared out of date only because the array uses a reduced hash -- after an interrupted sync every added or changed file of a lost disk comes back as .unrecoverable, while the reference version rebuilt them' % (ood, bool(called), size, ref[0], bool(ref[1])),
+                      function='repair', construct='CHG judgement depends on the hash size')
+
+
+def blockcmp_size_rule(P, rep, rid):
+    """blockcmp() hashes `pos_size` bytes of the rebuilt block and compares with the recorded hash; recorded hashes are always taken
+    over the valid length of the block in its file (file_block_size: shorter for the last block).  A comparison over any other
+    length never matches for a partial block: a matching OLD block is then taken for new data and written back as recovered."""
+    rep.rule(rid, 'check.c: the length handed to blockcmp() is the result of file_block_size() for the entry being judged', 2)
+    n = 0
+    for fn in ('repair', 'is_hash_matching'):
+        f = P.fn(fn)
+        rep.analysed(f)
+        for c in f.calls('blockcmp'):
+            n += 1
+            src = f.value_sources(c.ops[3])
+            ok = bool(src) and all(x == ('call', 'file_block_size') for x in src)
+            rep.check(ok, rid, '%s: length of the compared block' % fn, c.loc(), 'file_block_size()' if ok else 'the length is %s, not the valid length of the block in its file: for the last, partial block of a file the hash of data + padding never equals the recorded hash, so a rebuilt block that IS the old content is judged "differs -> new data" and reported recovered' % f.xexpr(c.ops[3])[:60],
+                      function=fn, construct='blockcmp length')
+    if n < 2:
+        raise AnalysisBroken('blockcmp call sites not found (%d)' % n)
 
 
 def state_case_entries(f, k):
